@@ -197,8 +197,13 @@ contract(
     params={"self": "@OStorage", "name": "Str"},
     callees={"DiscStorage._lookup_path": p_lookup_path},
     ghost={"vars": dict(PG, rename_failed="=False")},
+    # a reference is <hash>[*]<.suffix> (external.__init__ raises ValueError for anything else)
+    requires={"reference-has-a-suffix": "'.' in name"},
     ensures={
-        "looks-up-the-given-name [C13]": "looked_up == name",
+        # C13 "a persisted file appears ... when a reference to it is written": the reference may carry the full hash (hash-length >= 64:
+        # no `*`), the data is still stored as <hash>-new<suffix>, so the lookup pattern has to admit the infix
+        "looks-up-the-given-name [C13]": "looked_up == (name if '*' in name else name.replace('.', '*.', 1))",
+        "lookup-admits-the-new-infix [C13,C15]": "'*' in looked_up",
         # C13: a persisted file is the -new file under the same hash and suffix, nothing else is renamed
         "nothing-renamed-when-missing-or-ambiguous [C13,C15]": "when(lookup_failed, n_rename == 0)",
         "renames-only-new-files [C13,C15]": "when(not lookup_failed, (n_rename == 1) == file.stem.endswith('-new')) and n_rename <= 1",
